@@ -32,3 +32,13 @@ package cache
 //@   safety off
 //@   guarantees [C17:ban-uncharges-the-node] (calls("(*Handle).Release") == old(calls("(*Handle).Release")) + 1) ==> (r.used == old(r.used) - rn.n.size && rn.ban)
 //@   ensures [C17:no-release-no-change] (calls("(*Handle).Release") == old(calls("(*Handle).Release"))) ==> r.used == old(r.used)
+
+// C17 (finalisers): closing the cache takes every node back from the replacement policy, forced or not: the policy's
+// own handle on a resident value is what keeps its finaliser from running after the last user handle is gone.
+//@ count cache.Cacher.Evict
+//@ func (*Cache).Close$1
+//@   props C17
+//@   safety off
+//@   loop 1
+//@     invariant [C17:every-node-so-far-was-taken-back-from-the-policy] r.cacher != nil ==> calls("cache.Cacher.Evict") >= old(calls("cache.Cacher.Evict")) + rangeidx
+//@   ensures [C17:close-takes-every-node-back-from-the-policy] r.cacher != nil ==> calls("cache.Cacher.Evict") >= old(calls("cache.Cacher.Evict")) + len(nodes)
